@@ -37,12 +37,12 @@ type C10Scn struct {
 	Format     string
 	Keep       bool
 	Stdout     bool
-	Plain      string // content id of the user's data in decoded form
-	InputOK    bool   // the input can be processed
-	ExpectOK   bool   // the fault-free run is expected to succeed
-	RecordOnly bool   // judged on the fault-free run only (the family of structural cut points)
+	Plain      string   // content id of the user's data in decoded form
+	InputOK    bool     // the input can be processed
+	ExpectOK   bool     // the fault-free run is expected to succeed
+	RecordOnly bool     // judged on the fault-free run only (the family of structural cut points)
 	Extra      []string // further files of a multi-file run (another member and its output): may appear, change or vanish
-	EitherExit bool   // the statement does not say whether the fault-free run succeeds (a stale temporary file is in the way): both exit classes are judged by their own rules
+	EitherExit bool     // the statement does not say whether the fault-free run succeeds (a stale temporary file is in the way): both exit classes are judged by their own rules
 }
 
 type C10Case struct {
